@@ -19,7 +19,7 @@ META = {
         'R4 initialisation builds the lemma inventory and the exception map from wordnet.words(): the first form is the lemma, '
         'every other form maps to it, per part of speech; R5 __call__ dispatches over all parts of speech for pos=None, over the '
         'given one if it has rules, over none otherwise, and does not repeat the unfiltered original under a part of speech; '
-        'R6 a Wordnet queries the union over the returned (pos, forms) items (C09-R3).'),
+        'R6 a Wordnet queries the union over the returned (pos, forms) items (C09-R3). R7 results are de-duplicated by entity, not by public id (C09-R4).'),
     'decides': ['candidate provenance', 'no full suppletion', 'rule table consistency', 'initialisation', 'dispatch', 'consumption by _find_helper'],
     'not_decided': ['soundness/completeness over all query strings (value level)'],
     'assumptions': [],
